@@ -112,6 +112,31 @@ theorem C07.features_not_copied_witness :
       ≠ [{ name := 7, opts := [], requested := false, link := none }] := by
   decide
 
+/-- Object identity: for EVERY object graph the caller hands over (Feature objects whose options hold data, handles that
+cannot be deep-copied, and nested Feature objects to any depth) and every set of requested objects, none of the caller's
+objects is written by a call with `copy_features=True`: the copy shares only the un-copyable handles, and the engine
+reaches only copies. -/
+theorem C07.deepcopy_isolates_caller (h : Heap) (roots : List Nat) (fuel : Nat) :
+    callerAfterCall true fuel h roots = h := by
+  unfold callerAfterCall
+  rw [take_touch h.length fuel _ _ (by intro r hr; obtain ⟨a, _, rfl⟩ := List.mem_map.mp hr; omega) (sep_deepcopy h)]
+  simp [deepcopyHeap]
+
+/-- … so any number of calls re-using the same objects sees, call after call, the objects a fresh caller would pass -/
+theorem C07.nested_features_reusable (h : Heap) (calls : List (List Nat × Nat)) :
+    calls.foldl (fun cur c => callerAfterCall true c.2 cur c.1) h = h := by
+  induction calls with
+  | nil => rfl
+  | cons c cs ih => simpa [List.foldl_cons, C07.deepcopy_isolates_caller] using ih
+
+/-- The per-key fallback matters: if one un-copyable value made the whole options dict fall back to a shallow copy, a
+requested feature holding a handle and a nested feature would get that nested (caller-owned) object written. -/
+theorem C07.per_key_fallback_needed_witness :
+    let h : Heap := [{ name := 1, opts := [], touched := false },
+                     { name := 2, opts := [(0, .feats [0]), (1, .handle 9), (2, .scalar 3)], touched := false }]
+    callerAfterCall false 3 h [1] ≠ h ∧ callerAfterCall true 3 h [1] = h := by
+  decide
+
 /-! ## C. the caller's `links` set -/
 
 /-- Full statement: "planning leaves the caller's links set unchanged".  It holds when no planned feature carries a link
